@@ -40,6 +40,10 @@ def schedule_search(ctx, prop, bad, lean_failed):
         ctx.coverage["search_runs"] = len(more)
     body = ["Lean obligations on the regenerated gate facts that no longer check: %s" % lean_failed,
             "generated facts: " + json.dumps(ctx.coverage.get("generated_facts")), ""]
+    try:
+        body += [common.wm_search(ctx, common.regen_facts(ctx))[1], ""]
+    except Exception as e:
+        body += ["model-side search failed to run: %s" % e, ""]
     if bad:
         r = bad[0]
         body += ["failing input: Miri litmus program `%s` with -Zmiri-seed=%d:" % (r["program"], r["seed"]), "  replay: " + r["cmd"], r["report"]]
